@@ -25,13 +25,17 @@ CliIn(cmd) ==
   LET base == [cmd |-> cmd, argv |-> Argv(cmd), env |-> EnvOf(cmd), timeout_ms |-> 60000]
       spec == IF "doc" \in DOMAIN cmd.inp THEN [doc |-> cmd.inp.doc]
               ELSE IF "hex" \in DOMAIN cmd.inp THEN [hex |-> cmd.inp.hex] ELSE [hex |-> ""]
-  IN  IF cmd.chan = "file" THEN base @@ [files |-> [in |-> spec]]
-      ELSE IF cmd.chan = "fifo" THEN base @@ [fifos |-> [in |-> spec]]
+  IN  IF cmd.chan = "file" THEN base @@ [files |-> (FileName(cmd) :> spec)]
+      ELSE IF cmd.chan = "fifo" THEN base @@ [fifos |-> (FileName(cmd) :> spec)]
       ELSE IF cmd.chan \in {"stdin", "devstdin"} THEN base @@ [stdin |-> spec]
       ELSE base
 \* the four ways of handing bytes to a command
 Chans4 == <<"file", "stdin", "fifo", "devstdin">>
 ChanNo(k) == Chans4[1 + (k % 4)]
+
+\* file names that command line tools may take for something else: the conventional stdin marker, option look-alikes,
+\* blanks, non-ASCII, hidden, hexadecimal / format / glob look-alikes (the command gets the absolute path of the file)
+FileNames == <<"-", "--", "-x", "a b", CpsToStr(<<233, 46, 106, 115, 111, 110>>), ".hidden", "x-", "-.txt", "0x", "%s", "*", "stdin", "in">>
 
 \* ---- content that text tools treat specially ------------------------------------------------
 \* Byte strings with a prefix or suffix that editors, shells, terminals or lenient readers strip, translate or
